@@ -102,6 +102,12 @@ declarations:
 - decl: void fill(IndexType *idx +rank(1), int n +implied(size(idx)))
 - decl: void scale(RealType *v +rank(1)+intent(inout), size_t n +implied(size(v)), int64_t by)
 - decl: const std::string label(TagType tag, const std::string &prefix)
+# names at and beyond what a Fortran name may hold (63 characters for c_<name> / c_<name>_bufferify): whatever is done
+# about them is a function of the name alone
+- decl: bool is_the_unstructured_mesh_partition_boundary_consistent_on_all(int rank)
+- decl: bool is_the_unstructured_mesh_partition_boundary_consistent_on_rank(int rank)
+- decl: void set_name_of_the_unstructured_mesh_partition_boundary_set(const std::string &name)
+- decl: int a_function_with_a_name_that_is_longer_than_any_fortran_name_can_be_by_a_good_margin(const std::string &name, bool flag)
 """
 
 
@@ -148,10 +154,18 @@ options:
   wrap_lua: false
   PY_struct_arg: class
   PY_array_arg: list
+  wrap_struct_as: class
 declarations:
 - decl: struct Point { int x; double y; int *ids +dimension(x); };
 - decl: double norm(const Point *p)
 - decl: void shift(Point *p +intent(inout), double by)
+# a second struct that names the first as its base (class_baseclass): what is recorded for one struct stays with that struct
+- decl: struct Point3 { int x; double y; int *ids +dimension(x); int z; };
+  options:
+    class_baseclass: Point
+- decl: struct Plain { int first; int second; };
+  options:
+    wrap_struct_as: struct
 """
 
 
